@@ -7,6 +7,7 @@ import (
 	"crypto/sha256"
 	"net/http"
 
+	"github.com/WICG/webpackage/go/internal/signingalgorithm"
 	"github.com/WICG/webpackage/go/internal/vh"
 	"github.com/WICG/webpackage/go/signedexchange/structuredheader"
 	"github.com/WICG/webpackage/go/signedexchange/version"
@@ -360,4 +361,49 @@ func structuredParse(h string) ([]byte, bool) {
 	}
 	sig, ok := pl[0].Params["sig"].([]byte)
 	return sig, ok
+}
+
+// VH_C08_SignerHistory: one Signer value is used the way a packager uses it - for several exchanges in a row.
+// Before the exchange under test (1b1/1b2/1b3, symbolic payload byte, MI record size 16) the SAME Signer has signed
+// nothing, or one other exchange of version 1b3, 1b2 or 1b1 (another URL, status, body).  The "sig" parameter it
+// then produces must be a signature, under the certificate's key, over exactly the message the spec prescribes for
+// THIS exchange and version (64 spaces, this version's context string, 0, cert-sha256, validity-url, date, expires,
+// URL, canonical header CBOR - recomputed independently), i.e. VerifierForPublicKey(cert.PublicKey).Verify accepts
+// (recomputed message, sig); and the whole Signature header equals what a FRESH Signer produces for the same
+// exchange up to the (randomised) signature bytes.  Seed C08-4 (message preamble memoised on the Signer at first
+// use) was missed while every harness created one Signer per exchange.
+func VH_C08_SignerHistory() {
+	vh.MustReach("fresh", "reused")
+	ver := sxVersions[vh.Choose(3)]
+	cert, _, priv := sxKey(0)
+	s := sxSigner(cert, priv, sxDate, sxExpires)
+	if h := vh.Choose(4); h > 0 {
+		w := NewExchange(sxVersions[h-1], "https://example.org/warm", "GET", http.Header{}, 404, http.Header{"Content-Type": []string{"text/plain"}}, []byte{1, 2, 3})
+		vh.Assume(w.MiEncodePayload(16) == nil)
+		_, werr := s.signatureHeaderValue(w)
+		vh.Assume(werr == nil)
+		vh.Reach("reused")
+	} else {
+		vh.Reach("fresh")
+	}
+	e := NewExchange(ver, sxURL, "GET", http.Header{}, 200, http.Header{"Content-Type": []string{"text/html"}}, vh.Bytes("payload", 1))
+	vh.Assert(e.MiEncodePayload(16) == nil, "MI encoding")
+	got, err := s.signatureHeaderValue(e)
+	vh.Assert(err == nil, "signing succeeds")
+	sig, ok := structuredParse(got)
+	vh.Assert(ok, "Signature header parses")
+	var resp []r8Hdr
+	for k, v := range e.ResponseHeaders {
+		resp = append(resp, r8Hdr{k, v})
+	}
+	wantHdr := r8ExchangeHeaders(ver, "GET", sxURL, nil, 200, resp)
+	certSha := sha256.Sum256(cert.Raw)
+	wantMsg := r8SignedMessage(ver, certSha[:], "https://example.org/validity", sxDate, sxExpires, sxURL, wantHdr)
+	verifier, verr := signingalgorithm.VerifierForPublicKey(cert.PublicKey)
+	vh.Assert(verr == nil, "verifier for the certificate's key")
+	if verr != nil {
+		return
+	}
+	good, _ := verifier.Verify(wantMsg, sig)
+	vh.Assert(good, "the signature is over the spec's message for THIS exchange and version, whatever the Signer signed before")
 }
